@@ -125,13 +125,17 @@ structure Opts where
   alwaysSecret : Bool := false
   alwaysCJ : Bool := false
   delayed : Bool := false
+  /-- `AlwaysSetAbsoluteExpiry` with a time in the far future -/
+  alwaysExp : Bool := false
 deriving DecidableEq, Repr
 
 def Opts.all (o : Opts) : Bool := o.loc && o.int
 
-/-- `Options.Apply` (the time stamps it updates are not modelled). -/
+/-- `Options.Apply` (the time stamps it updates are not modelled): `MakeSecret`, `MakeCrownJewel`, then
+    `SetAbsoluteExpiry` — which also clears the deletion mark (`m.Deleted = 0`). -/
 def applyOpts (o : Opts) (r : Rec) : Rec :=
-  { r with md := { r.md with secret := r.md.secret || o.alwaysSecret, cj := r.md.cj || o.alwaysCJ } }
+  let m := { r.md with secret := r.md.secret || o.alwaysSecret, cj := r.md.cj || o.alwaysCJ }
+  { r with md := if o.alwaysExp then { m with expires := 2, deleted := false } else m }
 
 /-- Storage kinds the harness runs: the in-memory hashmap (hands out its own record objects), bbolt (serialises),
     a harness-owned injected storage whose `Put` returns a normalised copy (like `config`'s), and the
@@ -230,6 +234,8 @@ structure Out where
   calls : List Call := []
   res : Except Err (Option Rec) := .ok none
   feeds : List (Nat × List Rec × Bool) := []
+  /-- answer of `Interface.Exists` -/
+  flag : Option Bool := none
 
 /-- What `storage.Put` stores and returns for `r`: the injected storage of the harness returns a normalised copy
     (as `config`'s storage returns the exported option), the others the record itself. -/
@@ -316,6 +322,9 @@ inductive Mod where
   | del | mksec | mkcj
   | exp (t : Nat)
   | ins (n : Int)
+  /-- `SetRelativateExpiry` with a duration ≤ 0: the metadata stays as it is (`Deleted = -0`, or no assignment at
+      all), the record is put all the same -/
+  | touch
 deriving DecidableEq, Repr
 
 def Mod.run (m : Mod) (o : Opts) (r : Rec) : Rec :=
@@ -325,6 +334,7 @@ def Mod.run (m : Mod) (o : Opts) (r : Rec) : Rec :=
   | .mkcj => let r := applyOpts o r; { r with md := { r.md with cj := true } }
   | .exp t => let r := applyOpts o r; { r with md := { r.md with expires := t, deleted := false } }
   | .ins n => applyOpts o { r with n := n }
+  | .touch => applyOpts o r
 
 /-- Get the record (hooks run), modify it in place, `Controller.Put` it. On a storage that hands out its own
     objects the modification is visible in the storage before the pre-put hooks run. -/
@@ -341,6 +351,15 @@ def ifaceGet (st : St) (o : Opts) (key : String) : Out :=
   match ifaceGetRec st o key with
   | (cs, .error e) => { calls := cs, res := .error e }
   | (cs, .ok (r, _)) => { calls := cs, res := .ok (some r) }
+
+/-- `Interface.Exists`: a `Get` whose answer is reduced to a Boolean — not found = no, permission denied = yes
+    (the record is there), any other error (a hook's veto) is handed on. The hooks run as for `Get`. -/
+def ifaceExists (st : St) (o : Opts) (key : String) : Out :=
+  match ifaceGetRec st o key with
+  | (cs, .ok _) => { calls := cs, flag := some true }
+  | (cs, .error .notfound) => { calls := cs, flag := some false }
+  | (cs, .error .denied) => { calls := cs, flag := some true }
+  | (cs, .error e) => { calls := cs, res := .error e }
 
 /-- Flush of the delayed-write cache: `PutMany` → `batchPutOrDelete`; no hooks, no subscribers. -/
 def flushStore (cfg : Cfg) (store : Store) : Store → Store
@@ -369,8 +388,10 @@ inductive Op where
   | put (o : Opts) (r : Rec) (isNew : Bool)
   | modify (o : Opts) (key : String) (m : Mod)
   | get (o : Opts) (key : String)
+  | exists_ (o : Opts) (key : String)
   | push (r : Rec)
   | flush
+  | putMany (o : Opts) (rs : List Rec)
   | drain
   | drainOne (id : Nat)
 
@@ -388,8 +409,14 @@ def step (st : St) : Op → St × Out
   | .put o r isNew => ifacePut st o r isNew
   | .modify o key m => ifaceModify st o key m
   | .get o key => (st, ifaceGet st o key)
+  | .exists_ o key => (st, ifaceExists st o key)
   | .push r => (notify st r, {})
   | .flush => ({ st with store := flushStore st.cfg st.store st.wcache, wcache := [] }, {})
+  | .putMany o rs =>
+    -- `Interface.PutMany` (one batch, committed): all permissions required; `Options.Apply` on every record, then the
+    -- storage's batch writer — "nearly a direct database access": no hooks, no subscribers
+    if !o.all then (st, { res := .error .denied })
+    else ({ st with store := flushStore st.cfg st.store (rs.map (fun r => (r.key, applyOpts o r))) }, {})
   | .drain =>
     ({ st with subs := st.subs.map ({ · with buf := [] }),
                closed := st.closed.map (fun (s, u) => ({ s with buf := [] }, u)) },
